@@ -153,12 +153,22 @@ var mapfns = map[string]mapfn{
 	"char<":       {"#'char<", "char", 2, "sym", func(a []val) val { return vBool(a[0].i < a[1].i) }},
 }
 
+// bitUnsafe names the argument functions that still signal a type-error for
+// the element of a bit-vector (slip.Bit): 1+, zerop, evenp, oddp, plusp reject
+// it (a numeric-tower defect, not this property's concern). Comparisons,
+// equality, + - * and mod treat a bit as the integer it is since fix 4569d33.
+var bitUnsafe = map[string]bool{"succ": true, "1+": true, "'1+": true, "evenp": true, "'oddp": true, "zerop": true, "plusp": true}
+
+// okFor tells whether the function called name, defined on dom, applies to
+// elements of flavour flav.
+func okFor(name, dom, flav string) bool {
+	return domOK(dom, flav) && !(flav == "bit" && bitUnsafe[name])
+}
+
 func domOK(dom, flav string) bool {
 	if flav == "bit" {
-		// the elements of a bit-vector (slip.Bit) are rejected by slip's
-		// numeric functions (a numeric-tower defect, not this property's
-		// concern): only type-agnostic functions are applied to them
-		return dom == "any"
+		// bits are integers
+		return dom == "any" || dom == "int" || dom == "atom"
 	}
 	switch dom {
 	case "any":
